@@ -1349,7 +1349,8 @@ pub mod implementations {
             bail!("assert can only operate on a single item");
         }
 
-        let item = ctx.pop().unwrap();
+        // the asserted value may be a pointer produced by an index or field lookup.
+        let item = ctx.pop().unwrap().move_out_of_heap_primitive()?;
 
         let result = item.equals(&bool!(true))?;
 
